@@ -38,7 +38,7 @@ ASSUMPTIONS = [
 ]
 
 JSON_LEAVES = ["NoneType", "bool", "int", "float", "Decimal", "str", "bytes", "list", "tuple", "set", "dict", "date", "datetime",
-               "time", "timedelta", "UUID", "Color", "Num", "MyInt", "MyStr"]
+               "time", "timedelta", "UUID", "Color", "Num", "MyInt", "MyStr", "Prio", "Plain"]
 JSON_ORIGINS = {"int", "float", "Decimal", "str", "bytes", "list", "tuple", "set", "dict", "datetime", "date", "timedelta", "MyInt",
                 "MyStr", None}
 
@@ -74,10 +74,14 @@ for _fd in (M.FD("mode-rw-no-output-w", "Field(mode='rw', no_output='w', default
             # a Final field with a default never takes input, in any mode and without a mode
             M.FD("final-default", plain_default="4", required=False, default=("v", 4), no_input=True, ann="typing.Final[int]"),
             M.FD("final-field-default", "Field(default=4, ge=1)", required=False, default=("v", 4), no_input=True,
-                 ann="typing.Final[int]")):
+                 ann="typing.Final[int]"),
+            # fields whose type has no schema of its own (their property schema is empty, they are properties all the same)
+            M.FD("any-req", ann="typing.Any"),
+            M.FD("any-default", plain_default="7", required=False, default=("v", 7), ann="typing.Any"),
+            M.FD("any-optional", "Field(required=False)", required=False, ann="typing.Any")):
     M.MENU_BY_TAG.setdefault(_fd.tag, _fd)
 LOCAL_TAGS = ["mode-rw-no-output-w", "mode-rw-no-output-w-req", "mode-wa-no-input-a", "mode-r-no-output-r", "final-default",
-              "final-field-default"]
+              "final-field-default", "any-req", "any-default", "any-optional"]
 
 
 def class_decls(tier):
